@@ -137,11 +137,52 @@ def check_controller(res, T, cname, unit, via_clone=False):
     res.count("controllers_enumerated")
 
 
+PROXY_TARGETS = [("Amplifier", "volume"), ("Amplifier", "balance"), ("Amplifier", "bipolar_dc_offset"), ("MultiSynth", "transpose"),
+                 ("VorbisPlayer", "finetune"), ("Adsr", "attack_curve"), ("Amplifier", "inverse"), ("Lfo", "freq"), ("Glide", "freq_multiply")]
+
+
+def check_proxy(res, T, cname):
+    """A MetaModule user-defined controller mapped onto an embedded controller takes over its value type:
+    the stored encoding of the proxy must be the same bijection (thorough tier)."""
+    import rv.api as api
+    from rv.modules import MODULE_CLASSES
+    sp = spec.load()
+    t = sp[T]
+    sc = t.ctl(cname)
+    emb = api.Project()
+    m = emb.new_module(MODULE_CLASSES[t.mtype])
+    mm = api.m.MetaModule(project=emb)
+    mm.user_defined_controllers = 1
+    mm.mappings.values[0] = mm.Mapping((1, sc.number - 1))
+    mm.update_user_defined_controllers()
+    unit = next(iter(sc.ranges)) if sc.kind == "dependent" else None
+    n = 0
+    prev = None
+    for v in sc.domain(unit):
+        n += 1
+        want = sc.stored(v, unit)
+        mm.set_raw("user_defined_1", want)
+        back = mm.user_defined_1
+        raw = mm.get_raw("user_defined_1")
+        if _val(back) != v or raw != want or (prev is not None and raw <= prev):
+            res.violation(f"C10:proxy:{T}.{cname}", f"user-defined controller mapped on {T}.{cname}: stored {want} reads {back!r}, re-encodes to {raw!r} (value {v!r})",
+                          {"type": T, "controller": cname, "value": _val(v)})
+            break
+        prev = raw
+    res.evaluations += n
+    res.distinct += n
+    res.count("proxy_pairs_checked", n)
+
+
 def run_shard(spec_, res):
     for T, cname, unit in spec_["tasks"]:
         check_controller(res, T, cname, unit)
         if spec_["tier"] == "thorough" and T != "Output":
             check_controller(res, T, cname, unit, via_clone=True)
+    if spec_["tier"] == "thorough":
+        for i, (T, cname) in enumerate(PROXY_TARGETS):
+            if i % 16 == spec_["shard"]:
+                check_proxy(res, T, cname)
     if spec_["shard"] == 0:
         res.sample({"type": "Amplifier", "controller": "balance", "value": -128, "stored": 0, "pattern": 0})
         res.sample({"type": "Amplifier", "controller": "balance", "value": 128, "stored": 256, "pattern": 32768})
